@@ -23,7 +23,9 @@ PREFIX = '<<"MBT", "'
 
 def export(cfg, out_path, timeout=1500, module="MCDbExport", per_state=False):
     """run TLC on the export module with cfg; write one JSON history per line; returns (histories, TlcResult)"""
-    r = vlib.tlc(module, cfg, workers=4, timeout=timeout, xmx="6g", tag="dbmbt")
+    # MCGraphExport's view leaves `steps` out: only a strict breadth-first search (one worker) keeps the SHORTEST history of
+    # every state and so expands every state that can be expanded within the bound (deterministic state count)
+    r = vlib.tlc(module, cfg, workers=1 if per_state else 4, timeout=timeout, xmx="6g", tag="dbmbt")
     vlib.require_mc_ok(r, cfg)
     if r.violated:
         raise vlib.ToolError("DbModel violates its own invariant %s (specification error)" % r.violated)
@@ -59,14 +61,9 @@ def run(prop, tier, verdict, work, totals, graph=False):
         n, r = export(module + ("_thorough.cfg" if thorough else ".cfg"), hist, module=module, per_state=True)
         lines = open(hist).read().splitlines()
     else:
-        # depth 3 always (89 469 transitions); the quick tier replays every history of <= 2 queries and a seeded
-        # eighth of those with 3, the thorough tier all of them
-        n, r = export("MCDbExport_thorough.cfg", hist, module=module)
+        # quick: depth 2 (3 955 transitions); thorough: depth 3 (89 469)
+        n, r = export("MCDbExport_thorough.cfg" if thorough else "MCDbExport.cfg", hist, module=module)
         lines = open(hist).read().splitlines()
-        if not thorough:
-            off = vlib.seed() % 8
-            lines = [ln for i, ln in enumerate(lines) if ln.count('"ev"') <= 2 or i % 8 == off]
-        n = len(lines)
     jobs = 12 if thorough else 8
     per = (len(lines) + jobs - 1) // jobs
     chunks = []
@@ -82,10 +79,9 @@ def run(prop, tier, verdict, work, totals, graph=False):
     def one(ch):
         j, p, first, cnt = ch
         out = os.path.join(work, "mbt_trace_%s_%d.ndjson" % (module, j))
-        # chunk j % 4 == 0 runs on the file-backed variants in lock-step, the others in memory only
-        variants = "memory,file,mapped,any_file" if j % 4 == 0 else "memory"
+        # every 8th history (every 16th in the thorough tier) runs on the file-backed variants in lock-step, the others in memory
         rr = vlib.run_bin(vdb, ["mbt", "--in", p, "--out", out, "--work", os.path.join(work, "mbtw%d" % j),
-                                "--first", first, "--variants", variants, "--searches", 1 if graph else 0, "--tx", 0 if graph else 1], timeout=2400)
+                                "--first", first, "--variants", "memory,file,mapped,any_file", "--file-every", 16 if thorough else 8, "--searches", 1 if graph else 0, "--tx", 0 if graph else 1], timeout=2400)
         if rr.returncode != 0:
             return {"chunk": j, "died": (rr.stderr or "")[-300:], "out": out, "first": first}
         summ = json.loads(rr.stdout.strip().splitlines()[-1])
